@@ -187,6 +187,9 @@ func (ls *listenServer) route(r *core.Msg, slot int32) (string, bool) {
 	return core.EngineGlobal.Slots2Node.Get(slot).Master.Addr, false
 }
 
+// maxRedirects the number of MOVED/ASK redirects followed for one request before giving up
+const maxRedirects = 5
+
 // OnMoved process the redis moved/ask packet
 func (ls *listenServer) OnMoved(addr string, slot int32, s core.SConn, f *core.Frag) {
 	f.RspBody = f.RspBody[:0]
@@ -194,6 +197,14 @@ func (ls *listenServer) OnMoved(addr string, slot int32, s core.SConn, f *core.F
 	logging.Infof("[%dm|%df][%dc|%ds] moved/ask happen, old_addr: %s new_addr: %s, slot: %d, req: %s",
 		f.MsgId(), f.Id, f.OwnerFd(), s.Fd(),
 		s.RemoteAddr(), addr, slot, f.ReqString())
+
+	// redirects are followed a bounded number of times, as cluster clients do
+	if f.Redirects++; f.Redirects > maxRedirects {
+		logging.Errorf("[%dm|%df][%dc|%ds] moved/ask happen more than %d times, give up",
+			f.MsgId(), f.Id, f.OwnerFd(), s.Fd(), maxRedirects)
+		f.Error = codec.ErrTooManyRedirects
+		return
+	}
 
 	pool, ok := core.EngineGlobal.ProxyPool[addr]
 	if !ok {
